@@ -71,6 +71,7 @@ func UM(path string, byt, bit, width int, max int64) wf {
 func B(path string, byt, bit int) wf {
 	return wf{Path: path, Kind: kBool, Byte: byt, Bit: bit, Width: 1}
 }
+
 // BOR: the wire bit is the OR of the bool fields named in paths ("ClassB|FPending": one position of FCtrl read as
 // ClassB on uplinks and as FPending on downlinks; the library keeps both fields and sets both when decoding).
 func BOR(paths string, byt, bit int) wf {
